@@ -31,17 +31,17 @@ type Point struct {
 }
 
 type Sched struct {
-	prefix   []int
-	Points   []Point
-	threads  []*thread
-	cur      int
-	yield    chan struct{}
-	Deadlock bool
-	Diverged string // non-empty: the prefix could not be replayed
-	OnPoint  func(s *Sched, label string) // invariant hook evaluated at every scheduling point
-	label    string
-	mu       sync.Mutex
-	panicVal interface{}
+	prefix    []int
+	Points    []Point
+	threads   []*thread
+	cur       int
+	yield     chan struct{}
+	Deadlock  bool
+	Diverged  string                       // non-empty: the prefix could not be replayed
+	OnPoint   func(s *Sched, label string) // invariant hook evaluated at every scheduling point
+	label     string
+	mu        sync.Mutex
+	panicVal  interface{}
 	MaxPoints int
 	Truncated bool
 }
